@@ -166,4 +166,50 @@ def programs(tier):
         p = Program(f"c10_float_str_{ty}")
         p.fn("main", [], UNIT, Block([println(Call(ty + "_to_string", F(7, 2))), println(Call(ty + "_to_string", F(2, 1)))], Unit))
         add(f"float-to-string:{ty}", p, expect="accept")
+    # ---- numeric literals that flow directly into `dyn Trait`.  The payload of a trait object is the only `any`-typed position of
+    # the emitted Go; a Go constant stored there takes the constant's *default* type (`int` for 3, also for a float literal with an
+    # integral value, which the Go printer writes without a decimal point) unless it is converted, and the wrapper's type
+    # assertion then fails or the wrong implementation runs.  Dimensions: every numeric type x value class (floats: integral /
+    # fractional values) x spelling (suffixed; unsuffixed at the two default types) x every position where goml coerces a
+    # literal to `dyn` (annotated let, argument, tuple element, both branches of an if, match arms, constructor argument).
+    NUM = list(BITS) + ["float32", "float64"]
+
+    def dyn_program(name, ty, vals):
+        p = Program(name)
+        # the trait is written first (header), before the enum that mentions `dyn Shown`: goml resolves the trait of a `dyn` type
+        # in declaration order and rejects `enum Held { Keep(dyn Shown) }` placed above `trait Shown` ("Unknown trait"; reported)
+        p.header = "trait Shown {\n    fn show(Self) -> string;\n}\n"
+        for t in NUM:
+            p.impl("Shown", T(t), [("show", [("self", T(t))], STRING, Bin("+", Str(t + ":"), Call(t + "_to_string", Var("self"))))])
+        D = TDyn("Shown")
+        p.enum("Held", [("Keep", [D]), ("Nothing", [])])
+        p.fn("via", [("d", D)], STRING, TCall("Shown", "show", Var("d")))
+        p.fn("pick", [("c", BOOL)], STRING, Block([Let("d", If(Var("c"), ToDyn("Shown", vals[0]), ToDyn("Shown", vals[-1])), ty=D)], Call("via", Var("d"))))
+        p.fn("arm", [("n", INT32)], STRING, Block([Let("d", Match(Var("n"), [(PInt(0), ToDyn("Shown", vals[0])), (PWild, ToDyn("Shown", vals[-1]))]), ty=D)],
+                                                  Call("via", Var("d"))))
+        body = []
+        for i, v in enumerate(vals):
+            body += [Let(f"d{i}", ToDyn("Shown", v), ty=D), println(TCall("Shown", "show", Var(f"d{i}"))),       # annotated let
+                     println(Call("via", ToDyn("Shown", v))),                                                   # argument
+                     Let(f"t{i}", Tuple(ToDyn("Shown", v), Int(i)), ty=TTuple(D, INT32)), println(Call("via", Proj(Var(f"t{i}"), 0))),
+                     Let(f"k{i}", Ctor(TAdt("Held"), "Keep", ToDyn("Shown", v))),
+                     println(Match(Var(f"k{i}"), [(PCtor("Keep", PVar("d")), Call("via", Var("d"))), (PCtor("Nothing"), Str("nothing"))]))]
+        body += [println(Call("pick", Bool(True))), println(Call("pick", Bool(False))), println(Call("arm", Int(0))), println(Call("arm", Int(1)))]
+        p.fn("main", [], UNIT, Block(body, Unit))
+        return p
+
+    for ty in NUM:
+        if ty in BITS:
+            lo, hi = rng_of(ty)
+            classes = {"values": [0, 1, hi // 2 + 1, hi]}
+            mk = lambda v, suf: Int(v, ty, suffix=suf)
+        else:
+            classes = {"integral": [(0, 1), (3, 1), (100, 1), (65536, 1)], "fractional": [(5, 2), (1, 2), (401, 4)]}
+            mk = lambda v, suf: dict(Float(v[0], v[1], ty), suffix=suf)
+        for cn, vs in classes.items():
+            for sp in ("suffixed", "unsuffixed"):
+                if sp == "unsuffixed" and ty not in ("int32", "float64"):
+                    continue        # an unsuffixed literal has the default type (int32 / float64)
+                p = dyn_program(f"c10_dynlit_{ty}_{cn}_{sp}", ty, [mk(v, sp == "suffixed") for v in vs])
+                add(f"literal-to-dyn:{ty}:{cn}:{sp}", p, expect="accept")
     return out
